@@ -2,7 +2,7 @@ use anyhow::Result;
 
 use crate::ast::r#type::TypecheckFlags;
 use crate::ast::ClassType;
-use crate::ast::{new_err, Assignment, Ident, Value};
+use crate::ast::{map_err, new_err, Assignment, Ident, Value};
 use crate::parser::{Node, Parser};
 use crate::VecErr;
 
@@ -28,10 +28,13 @@ impl Parser {
                 .user_data()
                 .has_name_been_mapped_in_function(ident.name())
         } else {
-            input
-                .user_data()
-                .get_dependency_flags_from_name(ident.name())
-                .map(|x| x.0.to_owned())
+            map_err(
+                Assignment::modify_target(input.user_data(), ident.name()),
+                input.as_span(),
+                &input.user_data().get_source_file_name(),
+                "this assignment contains the \"modify\" attribute, which is used to mutate a variable from a higher scope".to_owned(),
+            )
+            .to_err_vec()?
         };
 
         if is_const {
